@@ -7,23 +7,27 @@ VERIF = os.path.dirname(os.path.dirname(os.path.abspath(__file__)))
 BASELINE = ("cd /repo && env -u FLOW_RECORD_VERIF /venv/bin/python -m pytest -ra -q -p no:cacheprovider "
             "--timeout=900 --continue-on-collection-errors")
 
-CLAIMS = {
-    "C11": dict(
-        text="Kernel-checked theorems over the magic/suffix/extension tables regenerated from base.py on every run: "
-             "magics pairwise prefix-free and disjoint from the stream header and Avro magic; every magic recognised "
-             "for all continuations; file-object/stdin/path round-trip matrix for every codec x container under the "
-             "CodecLaws hypothesis; refusal of magic-free input. Tie: translator (tables) + correspondence of "
-             "open_stream/find_adapter_for_stream/open_path with the model + exhaustive real-code matrix oracle.",
-        note="partial: gzip/bz2/lz4/zstd/fastavro are the hypothesis CodecLaws (exercised by the matrix, not proved); "
-             "RecordAdapter URL parsing is exercised by the oracle, not modelled.",
-        technique="Lean 4 theorems over extracted tables + model/implementation correspondence",
-        design="8/C11"),
-}
+REGISTERED = os.path.join(VERIF, "tools", "registered.txt")
+
+
+def load_claims():
+    """A property is claimed when its id is listed in tools/registered.txt; the claim text lives in the module."""
+    import importlib
+    import sys
+    sys.path.insert(0, VERIF)
+    claims = {}
+    ids = [l.strip() for l in open(REGISTERED) if l.strip() and not l.startswith("#")]
+    for pid in ids:
+        mod = importlib.import_module(f"harness.props.{pid}")
+        claims[pid] = mod.CLAIM
+    return claims
+
 
 NOT_YET = "machinery for this property is not built yet in this revision (Lean model + correspondence in progress)"
 
 
 def main():
+    CLAIMS = load_claims()
     ids = [json.loads(l)["id"] for l in open(os.path.join(VERIF, "properties.jsonl"))]
     checks = []
     for pid in ids:
